@@ -21,6 +21,7 @@ pub mod c16;
 pub mod c17;
 pub mod c18;
 pub mod c19;
+pub mod huge;
 
 pub fn create(prop: &str) -> Option<Box<dyn Monitor>> {
     Some(match prop {
